@@ -10,6 +10,7 @@ Line-protocol adapters for the stable lexer / FileInfo model (E-LEX).
   lexpos   (C13)  `pos <l|s> <hex>`  SourcePos of every scanned offset, Start/End of every item
                   `cpos <l|s> <hex>` the same questions asked from 8 goroutines at once: same / differ
   literal  (C14)  `lit|opt|dflt <hex>` literal decoding alone / as option value / as default
+                  `snum <ctx> <hex>` a (negated) numeric literal through the parser / compiler in context ctx
   lextotal (C12)  `tot <l|s> <hex> <observed error offset:class list> <observed Parse outcome> <observed ResultFromAST outcome>
                        <observed offsets of ResultFromAST's errors> <observed outcome of touching every AST node>`
 
@@ -20,6 +21,7 @@ import PCV.Engine
 import PCV.Util.Wire
 import PCV.Model.Lex
 import PCV.Model.Escape
+import PCV.Model.NumNode
 import PCV.Spec.Lex
 namespace PCV.Engines
 open PCV.Wire PCV.Lex PCV.FileInfo PCV.Spec.Lex
@@ -305,8 +307,65 @@ def litShape (lit : List UInt8) : Shape :=
        | _ => .other)
     | _ => .other
 
+/-- lexer view of `option x = <lit>;` where `<lit>` may be a negated numeric literal:
+    `some (neg, tok)` for exactly [option x = (-)? NUMBER ;] without errors -/
+inductive SShape where
+  | lit (neg : Bool) (t : Tok) | err | other
+
+def signedShape (lit : List UInt8) : SShape :=
+  let st := lexAll true ("option x = ".toUTF8.toList ++ lit ++ [59])
+  if st.panicked || !st.errs.isEmpty then .err
+  else
+    let isNum (t : Tok) : Bool := match t.kind with | .intLit | .floatLit => true | _ => false
+    let isRune (t : Tok) (c : Nat) : Bool := match t.kind, t.val with | .rune, .rune r => r == c | _, _ => false
+    match st.toks with
+    | [_, _, e, l, sc] => if isRune e 61 && isNum l && isRune sc 59 then .lit false l else .other
+    | [_, _, e, m, l, sc] => if isRune e 61 && isRune m 45 && isNum l && isRune sc 59 then .lit true l else .other
+    | _ => .other
+
+open PCV.NumNode in
+/-- the model's answer to a `snum` op -/
+def signedModel (ctx : String) (lit : List UInt8) : String :=
+  match signedShape lit with
+  | .other => "unmodelled"
+  | .err => "rej"
+  | .lit neg t =>
+    let isF := match t.val with | .float _ => true | _ => false
+    let n := match t.val with | .int n => n | _ => 0
+    let fbits := match t.val with | .float b => b | _ => 0
+    let node := numLit neg isF n
+    match ctx.splitOn ":" with
+    | ["opt"] =>
+      (match node with
+       | .uint u => s!"p:{u}"
+       | .int i => s!"n:{i}"
+       | .float =>
+         let b := if isF then fbits else PCV.Num.roundF64 n 0
+         s!"d:{hex16 (if neg then b + 2 ^ 63 else b)}")
+    | [k, ty] =>
+      (match styOf ty with
+       | none => "bad-op"
+       | some st =>
+         if k == "dflt" then
+           (match scalarValue st node with
+            | none => "rej"
+            | some none => "acc"
+            | some (some v) => s!"acc:{v}")
+         else if k == "copt" || k == "mlit" then
+           (match scalarValue st node with | none => "rej" | some _ => "acc")
+         else "bad-op")
+    | ["enum"] => if isF then "rej" else (match enumNumber neg n with | some v => s!"acc:{v}" | none => "rej")
+    | ["eres"] => if isF then "rej" else (match enumNumber neg n with | some _ => "acc" | none => "rej")
+    | ["tag"] => if isF || neg then "rej" else (if fieldTag n then "acc" else "rej")
+    | ["res"] => if isF || neg then "rej" else (if reservedStart n then "acc" else "rej")
+    | _ => "bad-op"
+
 def literalModel (line : String) : String :=
   match words line with
+  | ["snum", ctx, h] =>
+    match bytesOfHex h with
+    | some bs => signedModel ctx bs
+    | none => "bad-op"
   | ["lit", h] =>
     match bytesOfHex h with
     | some bs => showLit (lexAll true bs)
@@ -421,9 +480,103 @@ def judge (src : List UInt8) (o : Obs) : String :=
         if PCV.Num.roundF64 m e == b then "holds" else s!"fails float-value-differs expected={hex16 (PCV.Num.roundF64 m e)} got={hex16 b}"
       | .float _ _, _ => "fails wrong-token-kind"
 
+/-! the signed-boundary oracle: independent of the lexer model -/
+
+/-- skip protobuf trivia (white space, block and line comments) -/
+def skipTrivia : Nat → List UInt8 → List UInt8
+  | 0, l => l
+  | _, [] => []
+  | f+1, c :: rest =>
+    if c == 32 || c == 9 || c == 10 || c == 13 || c == 12 || c == 11 then skipTrivia f rest
+    else match c, rest with
+      | 47, 42 :: r =>  -- block comment
+        let rec close : Nat → List UInt8 → List UInt8
+          | 0, l => l
+          | _, [] => []
+          | g+1, 42 :: 47 :: r' => skipTrivia g r'
+          | g+1, _ :: r' => close g r'
+        close f r
+      | 47, 47 :: r => skipTrivia f (r.dropWhile (· != 10))
+      | _, _ => c :: rest
+
+/-- a source text meant to be `-`? NUMBER: sign and what protoc's tokenizer makes of the number -/
+def specSigned (lit : List UInt8) : Bool × NR :=
+  match lit with
+  | 45 :: rest => (true, protocNumber (skipTrivia rest.length rest))
+  | _ => (false, protocNumber lit)
+
+/-- is the text a plain decimal integer (no prefix)? -/
+def isDecimalSpelling (lit : List UInt8) : Bool :=
+  let body := match lit with | 45 :: r => skipTrivia r.length r | l => l
+  match body with
+  | 48 :: _ :: _ => false
+  | _ => body.all isDig
+
+/-- what the property demands of a `snum` answer: `none` = no claim -/
+def signedExpect (ctx : String) (lit : List UInt8) : Option String :=
+  let (neg, nr) := specSigned lit
+  let range (lo hi : Int) (v : Int) : Bool := decide (lo ≤ v) && decide (v ≤ hi)
+  -- (isInt, magnitude) ; a decimal integer beyond uint64 is an integer for range purposes and a float for float targets
+  let mag? : Option (Bool × Nat) := match nr with
+    | .int n => some (true, n)
+    | .float m e => if e == 0 && isDecimalSpelling lit then some (true, m) else some (false, 0)
+    | _ => none
+  match nr with
+  | .unknown => none
+  | .reject => some "rej"
+  | _ =>
+    match mag? with
+    | none => none
+    | some (isInt, m) =>
+      let v : Int := if neg then -(m : Int) else (m : Int)
+      match ctx.splitOn ":" with
+      | ["opt"] =>
+        if isInt && neg && m ≤ 2 ^ 63 then some s!"n:{v}"
+        else if isInt && !neg && m ≤ 2 ^ 64 - 1 then some s!"p:{m}"
+        else none
+      | [k, ty] =>
+        (match PCV.NumNode.styOf ty with
+         | none => none
+         | some st =>
+           let intRes (lo hi : Int) : Option String :=
+             if !isInt then some "rej"
+             else if range lo hi v then some (if k == "dflt" then s!"acc:{v}" else "acc") else some "rej"
+           match st with
+           | .bool => some "rej"
+           | .float | .double => if k == "mlit" && !isDecimalSpelling lit then none else some "acc"
+           | .int32 => intRes (-(2 ^ 31)) (2 ^ 31 - 1)
+           | .int64 => intRes (-(2 ^ 63)) (2 ^ 63 - 1)
+           | .uint32 => if neg && m == 0 then none else (if neg then some "rej" else intRes 0 (2 ^ 32 - 1))
+           | .uint64 => if neg && m == 0 then none else (if neg then some "rej" else intRes 0 (2 ^ 64 - 1)))
+      | ["enum"] => if isInt && range (-(2 ^ 31)) (2 ^ 31 - 1) v then some s!"acc:{v}" else some "rej"
+      | ["eres"] => if isInt && range (-(2 ^ 31)) (2 ^ 31 - 1) v then some "acc" else some "rej"
+      | ["tag"] => if isInt && !neg && PCV.NumNode.fieldTag m then some "acc" else some "rej"
+      | ["res"] => if isInt && !neg && 1 ≤ m && m ≤ PCV.NumNode.maxTag then some "acc" else some "rej"
+      | _ => none
+
+def signedSpec (ctx : String) (lit : List UInt8) (ans : String) : String :=
+  if ans == "unmodelled" then "skip"
+  else match signedExpect ctx lit with
+    | none => "skip"
+    | some want =>
+      if ans == want then "holds"
+      else
+        let (neg, nr) := specSigned lit
+        let wraps := neg && (ctx == "enum" || ctx == "eres") && ans.startsWith "acc" &&
+          (match nr with | .int n => decide (n > 2 ^ 63) | _ => false)
+        let kind := if wraps then "negative-enum-number-wraps-around"
+          else if want.startsWith "acc" || want.startsWith "n:" || want.startsWith "p:" then
+            (if ans.startsWith "rej" then "signed-literal-rejected" else "signed-literal-wrong-value")
+          else "signed-literal-accepted"
+        s!"fails {kind} ctx={ctx} lit={hexOfBytes lit} expected={want} got={ans}"
+
 def literalSpec (line ans : String) : String :=
   if ans.startsWith "PANIC" then "skip" else    -- decided by C12
   match words line with
+  | ["snum", ctx, h] =>
+    (match bytesOfHex h with
+     | some lit => signedSpec ctx lit ans
+     | none => "skip")
   | ["lit", h] =>
     (match bytesOfHex h with
      | some src => judge src (obsOfLit ans)
